@@ -17,3 +17,26 @@ mod ts_config;
 
 pub use file_system_state::FileSystemState;
 pub use generate_artifacts::get_artifact_path_and_content;
+
+/// Verification hook (only under `cfg(kani)`, which `cargo kani` sets and which the verification
+/// drivers set explicitly): a public wrapper around the crate-private description writer.
+#[cfg(kani)]
+pub mod verif_hooks {
+    use intern::string_key::Intern;
+
+    pub fn write_optional_description(
+        description: Option<&str>,
+        query_type_declaration: &mut String,
+        indentation_level: u8,
+    ) {
+        let description = description.map(|text| {
+            let value: common_lang_types::DescriptionValue = text.intern().into();
+            isograph_lang_types::Description(value)
+        });
+        crate::generate_updatable_and_parameter_type::write_optional_description(
+            description,
+            query_type_declaration,
+            indentation_level,
+        )
+    }
+}
